@@ -52,6 +52,9 @@ def budget(tier):  # per variant
     return 600 if tier == "quick" else 25000
 
 
+VARIANT_DISTINCT_SEEDS = True  # the two variants draw different workloads
+
+
 def variants(tier):
     # the library's logging switches are read at import time
     return [{"name": "default", "env": {}},
